@@ -21,6 +21,8 @@ run_one() {
 }
 export -f run_one; export ROOT KIND ALL
 if [ "$KIND" = seeded_target ]; then files=$(ls "$ROOT"/seeded/*/patch.diff); elif [ "$KIND" = seeded ] || [ "$KIND" = refactors_seeded ]; then files=$(ls "$ROOT/$KIND"/*/patch.diff); else files=$(ls "$ROOT/$KIND"/*.patch); fi
-RES="${RESULTS_DIR:-$ROOT/selftest/results}"; mkdir -p "$RES"
-echo "$files" | xargs -P "$JOBS" -I{} bash -c 'run_one {}' | tee "$RES/$KIND.txt.part"
-sort "$RES/$KIND.txt.part" > "$RES/$KIND.txt"; rm -f "$RES/$KIND.txt.part"
+# FILTER=<regex> restricts the sweep to matching paths; SUFFIX=<text> is appended to the name of the result file
+files=$(echo "$files" | grep -E "${FILTER:-.}")
+RES="${RESULTS_DIR:-$ROOT/selftest/results}"; mkdir -p "$RES"; OUTN="$KIND${SUFFIX:-}"
+echo "$files" | xargs -P "$JOBS" -I{} bash -c 'run_one {}' | tee "$RES/$OUTN.txt.part"
+sort "$RES/$OUTN.txt.part" > "$RES/$OUTN.txt"; rm -f "$RES/$OUTN.txt.part"
